@@ -172,7 +172,7 @@ def roundtrip(part, fmt, n, offset, kind, bonded, route, tmpdir):
     tol = 5.0e-13 if fmt == "xyz" else 5.0e-5
     dev = np.abs(np.asarray(back.positions) - pos).max()
     part.dev("coords_%s" % fmt, dev)
-    if dev > tol * (1 + 1e-6) + 1e-15:
+    if not (dev <= tol * (1 + 1e-6) + 1e-15):
         col = int(np.unravel_index(np.argmax(np.abs(np.asarray(back.positions) - pos)), pos.shape)[1])
         part.fail("%s-coords:%s:%s" % (fmt, "xyz"[col], key), "%s: coordinates read back deviate by %g (column %s), format precision %g" % (what, dev, "xyz"[col], tol), case)
     part.outcome((fmt, kind, bonded, route, n >= 100))
@@ -223,7 +223,7 @@ def provenance_roundtrip(part, fmt, n, prov, how, tmpdir):
         part.fail(key + ":elements", "%s molecule (%s) written to %s reads back with other elements" % (prov, how, fmt), case)
         return
     dev = np.abs(np.asarray(back.positions) - want).max()
-    if dev > tol:
+    if not (dev <= tol):
         part.fail(key + ":coords", "%s molecule after %s, written to %s, reads back %.4g A away from its current coordinates (stale source data?)" % (prov, how, fmt, dev), case)
     if fmt == "sdf":
         check_sdf_text(part, text, zs, want, key, "%s molecule after %s" % (prov, how), case)
@@ -269,7 +269,7 @@ def xyz_read(part, z):
             except Exception as e:
                 part.fail("xyz-read-raise:%s:%s" % (sname, sepname), "reading XYZ with symbol %r (%s, %s) raised %s" % (spelling, sname, sepname, type(e).__name__), case)
                 continue
-            if [int(v) for v in m.atomic_numbers] != [z, 1] or np.abs(np.asarray(m.positions) - np.array([[0.5, -1.25, 2.0], [1.5, 1.0, -3.0]])).max() > 0:
+            if [int(v) for v in m.atomic_numbers] != [z, 1] or not (np.abs(np.asarray(m.positions) - np.array([[0.5, -1.25, 2.0], [1.5, 1.0, -3.0]])).max() <= 0):
                 part.fail("xyz-read:%s:%s" % (sname, sepname), "XYZ with symbol %r (%s, %s) read as %s" % (spelling, sname, sepname, list(m.atomic_numbers)), case)
             part.outcome(("xyzread", sname, sepname))
     # the comment line is free text: empty, blank, or looking like a count / an atom record - it never is an atom and never hides one
@@ -290,7 +290,7 @@ def xyz_read(part, z):
             except Exception as e:
                 part.fail("xyz-comment-raise:%s:%s" % (cname, via), "reading XYZ with the comment line %r (%s) raised %s" % (comment, via, type(e).__name__), case)
                 continue
-            if [int(v) for v in m.atomic_numbers] != [z, 1] or np.abs(np.asarray(m.positions) - np.array([[0.5, -1.25, 2.0], [1.5, 1.0, -3.0]])).max() > 1e-12:
+            if [int(v) for v in m.atomic_numbers] != [z, 1] or not (np.abs(np.asarray(m.positions) - np.array([[0.5, -1.25, 2.0], [1.5, 1.0, -3.0]])).max() <= 1e-12):
                 part.fail("xyz-comment:%s:%s" % (cname, via), "XYZ with the comment line %r (%s) read as %s" % (comment, via, list(m.atomic_numbers)), case)
             part.outcome(("xyzcomment", cname, via))
     part.state(("xyzread", z))
@@ -330,7 +330,7 @@ def multi_sdf(part, k, source):
         part.fail(key + ":count", "SDF text with %d record(s) (%s) yields %d molecules" % (k, source, len(back)), case)
         return
     for i, (b, (zs, pos)) in enumerate(zip(back, mols)):
-        if [int(z) for z in b.atomic_numbers] != zs or np.abs(np.asarray(b.positions) - pos).max() > 5.0e-5 * (1 + 1e-6):
+        if [int(z) for z in b.atomic_numbers] != zs or not (np.abs(np.asarray(b.positions) - pos).max() <= 5.0e-5 * (1 + 1e-6)):
             part.fail(key + ":content", "record %d of %d (%s) read back with other elements/coordinates" % (i, k, source), case)
             return
     # file route
@@ -345,7 +345,7 @@ def multi_sdf(part, k, source):
                 part.fail(key + ":file-count:" + eol_name, "Molecule.load of a file with %d record(s) (%s, %s line endings) yields %d molecules" % (k, source, eol_name, len(got)), case)
             else:
                 for i, (b, (zs, pos)) in enumerate(zip(got, mols)):
-                    if [int(z) for z in b.atomic_numbers] != zs or np.abs(np.asarray(b.positions) - pos).max() > 5.0e-5 * (1 + 1e-6):
+                    if [int(z) for z in b.atomic_numbers] != zs or not (np.abs(np.asarray(b.positions) - pos).max() <= 5.0e-5 * (1 + 1e-6)):
                         part.fail(key + ":file-content:" + eol_name, "record %d of a %d-record file (%s, %s line endings) read back with other elements/coordinates" % (i, k, source, eol_name), case)
                         break
     except Exception as e:
@@ -424,7 +424,7 @@ def big_sdf(part, d):
         part.fail("big-sdf:count", "Molecule.load of a %d-record, %d-byte SDF file (a terminator %d characters before each of the offsets 4096..131072) yields %d molecules" % (len(mols), len(text), d, len(got)), case)
         return
     for i, (b, (zs, pos)) in enumerate(zip(got, mols)):
-        if [int(z) for z in b.atomic_numbers] != zs or np.abs(np.asarray(b.positions) - pos).max() > 5.0e-5 * (1 + 1e-6):
+        if [int(z) for z in b.atomic_numbers] != zs or not (np.abs(np.asarray(b.positions) - pos).max() <= 5.0e-5 * (1 + 1e-6)):
             part.fail("big-sdf:content", "record %d of %d of a large SDF file read back with other elements / coordinates" % (i, len(mols)), case)
             return
     part.outcome(("bigsdf", d))
